@@ -340,3 +340,97 @@ pub fn pord_laws<T: fmt::Debug>(r: &mut Rep, vs: &[T], pcmp: &dyn Fn(&T, &T) -> 
         }
     }
 }
+
+// ------------------------------------------------------------------------------------------
+// C05: recording hasher
+
+pub struct RecH(pub Vec<String>);
+
+impl RecH {
+    pub fn new() -> Self {
+        RecH(Vec::new())
+    }
+}
+
+macro_rules! rec_write {
+    ($($name:ident : $t:ty),*) => { $( fn $name(&mut self, i: $t) { self.0.push(format!("{}:{}", stringify!($t), i)); } )* };
+}
+
+impl Hasher for RecH {
+    fn finish(&self) -> u64 {
+        0
+    }
+    fn write(&mut self, bytes: &[u8]) {
+        self.0.push(format!("bytes:{:?}", bytes));
+    }
+    rec_write!(write_u8: u8, write_u16: u16, write_u32: u32, write_u64: u64, write_u128: u128, write_usize: usize,
+               write_i8: i8, write_i16: i16, write_i32: i32, write_i64: i64, write_i128: i128, write_isize: isize);
+}
+
+pub fn trace_of<T: Hash>(x: &T) -> Result<Vec<String>, String> {
+    guarded(|| {
+        let mut h = RecH::new();
+        x.hash(&mut h);
+        h.0
+    })
+}
+
+/// custom hash method: feeds a tagged u16 (distinguishable from V's own write_u8)
+pub fn hash_m<H: Hasher>(v: &V, state: &mut H) {
+    state.write_u16(0x100 + v.0 as u16);
+}
+/// equality used next to hash_m when PartialEq is educed with the same choices
+pub fn eq_same(a: &V, b: &V) -> bool {
+    a.0 == b.0
+}
+
+/// info(x) = (variant index, modelled field traces in declaration order, key = variant + non-ignored field values)
+pub fn hash_check<T: fmt::Debug + Hash>(
+    r: &mut Rep,
+    vs: &[T],
+    info: &dyn Fn(&T) -> (usize, Vec<String>, Vec<u8>),
+    eq: Option<&dyn Fn(&T, &T) -> bool>,
+    is_struct: bool,
+) {
+    let mut traces = Vec::new();
+    let mut prefixes: Vec<(usize, Vec<String>)> = Vec::new();
+    for x in vs {
+        let (vi, ft, _) = info(x);
+        match trace_of(x) {
+            Ok(t) => {
+                let ok = t.len() >= ft.len() && t[t.len() - ft.len()..] == ft[..];
+                r.ck(ok, 10, &|| format!("hash({:?}) fed {:?}, which does not end with the modelled field data {:?}", x, t, ft));
+                if ok {
+                    let p = t[..t.len() - ft.len()].to_vec();
+                    if let Some((_, q)) = prefixes.iter().find(|(v, _)| *v == vi) {
+                        r.ck(*q == p, 11, &|| format!("hash({:?}): data fed before the fields {:?} differs from {:?} fed for another value of the same variant", x, p, q));
+                    } else {
+                        prefixes.push((vi, p));
+                    }
+                }
+                traces.push(Some(t));
+            }
+            Err(p) => {
+                r.ck(false, 99, &|| format!("hash({:?}) panicked: {}", x, p));
+                traces.push(None);
+            }
+        }
+    }
+    let _ = is_struct;
+    for (i, a) in vs.iter().enumerate() {
+        for (j, b) in vs.iter().enumerate() {
+            if let (Some(ta), Some(tb)) = (&traces[i], &traces[j]) {
+                let same_key = info(a).2 == info(b).2;
+                r.ck((ta == tb) == same_key, same_key as u64,
+                     &|| format!("hash: {:?} and {:?} {} on variant and non-ignored fields but fed {:?} and {:?}", a, b,
+                                 if same_key { "agree" } else { "differ" }, ta, tb));
+                if let Some(eq) = eq {
+                    match guarded(|| eq(a, b)) {
+                        Ok(e) => r.ck(!e || ta == tb, 2 + e as u64, &|| format!("hash: {:?} == {:?} but they feed different data {:?} / {:?}", a, b, ta, tb)),
+                        Err(p) => r.ck(false, 98, &|| format!("eq({:?}, {:?}) panicked: {}", a, b, p)),
+                    }
+                }
+            }
+        }
+    }
+}
